@@ -15,6 +15,7 @@ from datetime import timedelta
 import numpy as np
 
 from . import sched_common as sc
+from . import caldelay
 from .. import common
 from ..fmutil import T, ad, err_class, fm, scalar, us
 from ..schedlib import run_impl, model_request
@@ -281,6 +282,14 @@ def run(ctx, res):
         o = oracle_link(c, impl)
         if o:
             res.fail(c, o[0], o[1])
+    # calendar (relativedelta) delays: oracle only (engines/caldelay.py)
+    for _ in range(ctx.n(60, 800)):
+        c = caldelay.gen(ctx.rng)
+        res.case(c, True)
+        res.count("part", "calendar-delay")
+        o = caldelay.oracle(c, caldelay.run(c))
+        if o:
+            res.fail(c, o[0], o[1])
     specs = [gen_comp(ctx.rng) for _ in range(ctx.n(150, 3000))]
     reqs, orders = zip(*[model_request(s) for s in specs])
     models = common.lean_batch(list(reqs))
@@ -308,6 +317,13 @@ def oracle_any(s, impl):
 
 
 def search(ctx, res, divergences, broken):
+    for _ in range(300):
+        c = caldelay.gen(ctx.rng)
+        res.case(c, True)
+        o = caldelay.oracle(c, caldelay.run(c))
+        if o:
+            res.fail(c, o[0], o[1])
+            return
     for d in divergences:
         c = d.get("case")
         if c and "chain" in c:
@@ -332,6 +348,8 @@ def search(ctx, res, divergences, broken):
 
 
 def shrink(ctx, f):
+    if f["case"].get("part") == "caldelay":
+        return f
     case = f["case"]
     if "chain" not in case:
         return f
@@ -355,6 +373,9 @@ def shrink(ctx, f):
 
 def replay(ctx, rp):
     case = rp.get("input") or (rp.get("diverging_case") or {}).get("case")
+    if case.get("part") == "caldelay":
+        o = caldelay.oracle(case, caldelay.run(case))
+        return {"fails": bool(o), "oracle": o}
     if "chain" in case:
         impl = run_link(case)
         o = oracle_link(case, impl)
